@@ -828,6 +828,9 @@ class SimPopen:
         self.actor.gate = gate
         s.actors.append(self.actor)
         env.children.append(info)
+        if not hasattr(env, 'last_child_by_task'):
+            env.last_child_by_task = {}
+        env.last_child_by_task[id(s.current)] = info
         alive = len(s.alive_actors())
         s.max_alive = max(s.max_alive, alive)
         if alive > env.processes_limit():
@@ -1017,6 +1020,19 @@ class SimThread:
         s = self._env.sched
         if self.task.state != 'new':
             raise RuntimeError('threads can only be started once')
+        env = self._env
+        if env.knobs.get('thread_start_fail') and s.active and s.current is not s.main:
+            # the system is out of threads: a helper thread started by one of the parent's
+            # worker threads (the reader of a child's stderr) cannot be created
+            env.helper_starts = getattr(env, 'helper_starts', 0) + 1
+            if env.helper_starts == env.knobs['thread_start_fail']:
+                s.probe('thread_start_fail_injected')
+                env.fired.append('thread_start_fail')
+                s.log.append(('thread-start-fail', self.name))
+                info = getattr(env, 'last_child_by_task', {}).get(id(s.current))
+                if info is not None:
+                    info['reader_failed'] = True    # its report cannot be read by the parent
+                raise RuntimeError("can't start new thread (injected)")
         self.task.state = 'runnable'
         self.real = real_threading.Thread(target=self._body, daemon=True,
                                           name='vsim-' + self.name)
